@@ -178,7 +178,7 @@ fn observe(qv: &QVector, m: &[u8], at: &str, out: &mut RunOut, digest: &mut Dige
         }
         Err(msg) => out.violate(sig("len", panic_kind(&msg), "general"), format!("{at}: len()/is_empty() panicked: {msg}")),
     }
-    for i in (0..n).chain([n, n + 1, usize::MAX]) {
+    for i in (0..n).chain([n, n + 1, usize::MAX, 1usize << 63, (1usize << 63) + n / 2, (1usize << 63) + n.saturating_sub(1)]) {
         match catch(|| qv.get(i)) {
             Ok(g) => {
                 digest.u64(g.map_or(9, |x| x as u64));
